@@ -239,14 +239,19 @@ def r19_config_invariance(facts_by_cfg, run_rules):
             c.ok("float-to-int:%s" % cfg, "-", "no float-to-integer conversion anywhere in the %s build (%d integer-to-float casts seen)" % (cfg, n_i2f))
     # (e) every other rule gives the same obligations under both configurations
     from . import registry as REG
+    from . import contract_rules as KR
     diffs = 0
     total = 0
     for p in sorted(REG.PROPERTY_RULES):
         if p == "C19":
             continue
         try:
-            oa, _, _ = run_rules(p, fd)
-            ob, _, _ = run_rules(p, f3)
+            KR.SKIP = True      # the shape slice never touches a float: its grid evaluation is the same work in both builds, done once by the property's own check
+            try:
+                oa, _, _ = run_rules(p, fd)
+                ob, _, _ = run_rules(p, f3)
+            finally:
+                KR.SKIP = False
         except Exception as e:      # pragma: no cover
             c.unk("rules:%s" % p, "-", "rule evaluation failed: %r" % e)
             continue
